@@ -5,6 +5,7 @@ import ast
 from typing import Dict, List, Optional, Set, Tuple
 
 from vlib import match, order, source
+from vlib.cfg import CFG, own_calls
 from vlib.source import AnalysisError, call_name, dotted, last_attr, short
 
 CONF = "python/experiment/model/conf.py"
@@ -15,6 +16,8 @@ SCOPE = (CONF, FLOWIR, DSL, GRAPH, "python/experiment/model/frontends/dosini.py"
 
 # Benign hits on today's tree, each confirmed by reading; (file suffix, function, kind) -> reason.
 EXEMPT = {
+    ("dosini.py", "Dosini.validate_component", "S1-dictcomp"): "input of the typo search whose results only order the list of errors",
+    ("dosini.py", "Dosini._comp_resource_manager_to_str", "S1-dictcomp"): "text of an error message only",
     ("dosini.py", "Dosini._dosini_environments_to_dicts", "S1-listcomp"): "the file names are unique and become the keys of a dictionary; nothing is numbered or overwritten",
     ("dosini.py", "Dosini.validate_component", "S1-materialise"): "order of the error objects in the list of errors only",
     ("dosini.py", "Dosini.validate_component", "S1-listcomp"): "order of the error objects in the list of errors only",
@@ -33,8 +36,6 @@ EXEMPT = {
     ("flowir.py", "FlowIRConcrete.validate", "S2-loop"): "order of the returned error list only",
     ("flowir.py", "FlowIRConcrete.get_stage_description", "S1-listcomp"):
         "order of Job objects inside a Stage container; names, graph, configurations and hashes are keyed by component id",
-    ("flowir.py", "FlowIRConcrete.instance", "S2-loop"):
-        "order of the component list of the description; consumers index components by (stage, name) and compare by content",
     ("dsl.py", "ComponentFlowIR.convert_outputreferences_to_datareferences", "S2-loop"):
         "error-list order, an existence test written as for/break/else, and rewriting of '<...>' delimited output "
         "references (no reference text contains another); the resulting references are sorted",
@@ -219,6 +220,76 @@ def check_module_memos(ctx, rule: str, consequence: str) -> None:
     ctx.floor(rule, n_fn, 500, "functions of the load-path modules inspected for module-level memos")
 
 
+ARG_MUTATORS = ("update", "setdefault", "pop", "popitem", "clear", "append", "extend", "insert", "remove", "sort", "reverse")
+
+
+def check_arguments_not_mutated(ctx, confm) -> None:
+    """The entry point of every load (ExperimentConfigurationFactory.configurationForExperiment) leaves the objects it was handed as they
+    were: a dictionary or list parameter is mutated only after it was rebound to a copy.  Otherwise what one load adds (the implied
+    manifest of package A) is still there when the caller hands the same object to the next load."""
+    RID = "C15.R11-loads-do-not-write-into-their-arguments"
+    from vlib import flow
+    n = 0
+    for q, f in sorted(confm.functions.items()):
+        if q.split(".")[-1] != "configurationForExperiment":
+            continue
+        ctx.analysed(f)
+        cfg = CFG(f)
+        params = {a.arg for a in f.args.args + f.args.kwonlyargs} - {"self", "cls"}
+        # an OUT parameter (the function only ever writes into it and tests it for None) is the documented way to hand results back
+        out_params = set()
+        for pn in params:
+            uses = [x for x in ast.walk(f) if isinstance(x, ast.Name) and x.id == pn and isinstance(x.ctx, ast.Load)]
+            def write_or_none_test(x) -> bool:
+                par = source.parent(x)
+                if isinstance(par, ast.Compare) and all(isinstance(c_, ast.Constant) and c_.value is None for c_ in par.comparators):
+                    return True
+                if isinstance(par, ast.Subscript) and isinstance(par.ctx, (ast.Store, ast.Del)):
+                    return True
+                if isinstance(par, ast.Attribute) and par.attr in ARG_MUTATORS:
+                    return True
+                # 'p = p if p is not None else {}': rebinding the name to itself
+                st_ = source.stmt_of(x)
+                return isinstance(st_, ast.Assign) and len(st_.targets) == 1 and isinstance(st_.targets[0], ast.Name) and st_.targets[0].id == pn
+            if uses and all(write_or_none_test(x) for x in uses):
+                out_params.add(pn)
+        params -= out_params
+        for nd in cfg.nodes:
+            if nd.ast is None or nd.kind not in ("stmt", "test"):
+                continue
+            sites = []
+            for c in own_calls(nd.ast):
+                if last_attr(c) in ARG_MUTATORS and isinstance(c.func, ast.Attribute) and isinstance(c.func.value, ast.Name) and c.func.value.id in params:
+                    sites.append((c.func.value.id, c))
+            if isinstance(nd.ast, (ast.Assign, ast.AugAssign, ast.Delete)):
+                tg = nd.ast.targets if isinstance(nd.ast, (ast.Assign, ast.Delete)) else [nd.ast.target]
+                for t in tg:
+                    if isinstance(t, ast.Subscript) and isinstance(t.value, ast.Name) and t.value.id in params:
+                        sites.append((t.value.id, t))
+            for (pn, site) in sites:
+                n += 1
+                rd = flow.reaching_defs(cfg, pn, ignore_labels=("exc",)).get(nd.id, frozenset())
+                # -1 = the value the caller passed; a definition that is not a copy keeps the caller's object too
+                def is_copy(d) -> bool:
+                    if d < 0:
+                        return False
+                    v = flow.def_value(cfg, d, pn)
+                    return isinstance(v, (ast.Dict, ast.List, ast.DictComp, ast.ListComp)) or (
+                        isinstance(v, ast.Call) and (call_name(v) or "").split(".")[-1] in ("dict", "list", "copy", "deepcopy", "deep_copy"))  or (
+                        v is not None and pn not in source.names_in(v))
+                own = all(is_copy(d) for d in rd) and bool(rd)
+                ctx.ob(RID, site, own,
+                       "%s is written only after it was rebound to an object of the load's own" % pn if own else
+                       "%s writes into its argument %s (%s): the object belongs to the caller - a caller that re-uses it for a second package hands "
+                       "the first package's entries (e.g. its top-level folders, which decide whether 'name:ref' is a folder or a component) to "
+                       "the second load, whose result then depends on what the process loaded before" % (q, pn, short(site, 50)),
+                       construct="%s: %s is a copy when it is written" % (q.split(".")[-1], pn))
+    found = [q for q in confm.functions if q.split(".")[-1] == "configurationForExperiment"]
+    ctx.require(bool(found), "anchor missing: configurationForExperiment in conf.py")
+    ctx.ob(RID, confm.functions[found[0]], True, "%d write(s) into parameters of configurationForExperiment examined" % n, trivial=True,
+           construct="configurationForExperiment: parameters")
+
+
 def check_search_verdicts(ctx, mods) -> None:
     """A loop over the values/items/keys of a mapping (its order is the order in which the document lists the keys) that returns
     from inside the loop is a search.  It is order-independent when every return inside the loop gives the same verdict ("is there an
@@ -374,6 +445,9 @@ def run(ctx) -> None:
     ctx.rule("C15.R9-scope-per-component", "components are visited in the order of a SET of identifiers (hash-seed dependent); that is harmless only "
              "while nothing is carried from one component to the next: the substitution scope that receives a component's variables in "
              "FlowIRConcrete.instance is created inside the loop over the components (shared rule with C04.R12)")
+    ctx.rule("C15.R11-loads-do-not-write-into-their-arguments", "configurationForExperiment mutates a dictionary / list parameter only when every reaching "
+             "definition of the name at that point is a copy made by the function itself (dict(..), list(..), a literal, a value not derived from "
+             "the parameter)")
     ctx.rule("C15.R10-search-over-a-mapping-has-one-verdict", "a loop over the values/items/keys of a mapping that returns from inside the loop returns "
              "one and the same value at every such return (the other answer is given after the loop): with two verdicts inside the loop "
              "the key listed first in the document decides")
@@ -419,6 +493,7 @@ def run(ctx) -> None:
     check_single_pass_expansion(ctx, mods)
     check_rekeying(ctx, mods)
     check_search_verdicts(ctx, mods)
+    check_arguments_not_mutated(ctx, ctx.repo.module(CONF))
     ctx.floor("C15.R1-order-taint", n_hits, 10, "order-taint hits (benign + violating) - fewer means the detector lost its sources")
 
     # ---------------- R2 -------------------------------------------------------------------------------
